@@ -490,7 +490,6 @@ func checkC09(c C09Case) *Fail {
 	return res
 }
 
-
 func init() {
 	registerReplay("c09", func(raw json.RawMessage) *Fail {
 		var c C09Case
